@@ -11,7 +11,7 @@ Open Scope list_scope.
 
 Inductive case :=
 | CE2E (entry : string) (digits : nat) (conds assum : list string) (out : obs (list string)) (reader_ok : bool)
-       (points : list (list (string * Q)))
+       (points : list (list (string * Q))) (hints : list string)
 | CGlue (digits : nat) (flag : bool) (symmap : list (string * string)) (tree : stree) (out : obs string)
 | CTrans (text : string) (given : list (string * string)) (res : string) (map_after : list (string * string)).
 
@@ -26,6 +26,26 @@ Definition rd_and (s : string) : option (list cond) :=
   | Some (SList (Atom a :: cs)) => if String.eqb a "and" then all_some (map cond_of_sexp cs) else None
   | _ => None
   end.
+
+(* hints (untrusted candidates handed to the checker): numbers may be written p/q *)
+Fixpoint split_slash (t : text) : option (text * text) :=
+  match t with
+  | [] => None
+  | c :: r => if Ascii.eqb c "/" then Some ([], r)
+              else match split_slash r with Some (a, b) => Some (c :: a, b) | None => None end
+  end.
+Definition read_hnum (s : string) : option Q :=
+  match split_slash (s2t s) with
+  | Some (a, b) => match read_number (t2s a), read_number (t2s b) with
+                   | Some x, Some y => if Qeq_bool y 0 then None else Some (Qred (x / y))
+                   | _, _ => None
+                   end
+  | None => read_number s
+  end.
+Definition rd_hcond (s : string) : option cond :=
+  match rd_sexp s with Some e => cond_of_sexp_with read_hnum e | None => None end.
+Definition rd_hexpr (s : string) : option expr :=
+  match rd_sexp s with Some e => expr_of_sexp_with read_hnum e | None => None end.
 
 (* ------------------------------------------------------------------ second oracle: evaluation at points *)
 Fixpoint evars (e : expr) : list string :=
@@ -71,43 +91,28 @@ Definition point_ok_expr (d : nat) (e o : expr) (p : list (string * Q)) : bool :
   | _, _ => true
   end.
 
-(* ------------------------------------------------------------------ finding classes *)
-Fixpoint nodup_s (l : list string) : list string :=
-  match l with [] => [] | x :: r => x :: filter (fun y => negb (String.eqb x y)) (nodup_s r) end.
-
-(* D21: two different fluents of the input are given the same sympy symbol *)
-Definition collides (vars : list string) : bool :=
-  let vs := nodup_s vars in
-  existsb (fun v => existsb (fun w => negb (String.eqb v w) && String.eqb (symbol_name v) (symbol_name w)) vs) vs.
-
-(* D21b: an output condition without any fluent (the library's reader rejects "(<= 2 25)") *)
-Definition const_only (c : cond) : bool := match cvars c with [] => true | _ => false end.
-
 (* ------------------------------------------------------------------ end-to-end judgement *)
-Record e2e_view := { ev_parsed : bool; ev_check : bool; ev_points : bool; ev_reader : bool;
-                     ev_collides : bool; ev_const_only : bool }.
+Record e2e_view := { ev_parsed : bool; ev_check : bool; ev_points : bool; ev_reader : bool }.
+
+Definition bad_view (reader_ok : bool) : e2e_view :=
+  {| ev_parsed := false; ev_check := false; ev_points := true; ev_reader := reader_ok |}.
 
 Definition view_e2e (entry : string) (d : nat) (conds assum : list string) (out : obs (list string))
-           (reader_ok : bool) (points : list (list (string * Q))) : e2e_view :=
+           (reader_ok : bool) (points : list (list (string * Q))) (hints : list string) : e2e_view :=
   if String.eqb entry "expr" then
     match map rd_expr conds, out with
     | [Some e], Returned [o] =>
         match rd_expr o with
-        | Some oe => {| ev_parsed := true; ev_check := check_expr d e oe;
-                        ev_points := forallb (point_ok_expr d e oe) points; ev_reader := reader_ok;
-                        ev_collides := collides (evars e); ev_const_only := false |}
-        | None => {| ev_parsed := false; ev_check := false; ev_points := true; ev_reader := reader_ok;
-                     ev_collides := collides (evars e); ev_const_only := false |}
+        | Some oe => {| ev_parsed := true; ev_check := check_expr d (somes (map rd_hexpr hints)) e oe;
+                        ev_points := forallb (point_ok_expr d e oe) points; ev_reader := reader_ok |}
+        | None => bad_view reader_ok
         end
-    | [Some e], _ => {| ev_parsed := false; ev_check := false; ev_points := true; ev_reader := reader_ok;
-                        ev_collides := collides (evars e); ev_const_only := false |}
-    | _, _ => {| ev_parsed := false; ev_check := false; ev_points := true; ev_reader := reader_ok;
-                 ev_collides := false; ev_const_only := false |}
+    | _, _ => bad_view reader_ok
     end
   else
     match rd_conds conds, rd_conds assum with
     | Some cs, Some asm =>
-        let coll := collides (flat_map cvars (cs ++ asm)) in
+        let hs := somes (map rd_hcond hints) in
         let outs := match out with
                     | Returned os => if String.eqb entry "print"
                                      then match os with [t] => rd_and t | _ => None end
@@ -118,18 +123,16 @@ Definition view_e2e (entry : string) (d : nat) (conds assum : list string) (out 
         | Some os =>
             let chk := if String.eqb entry "ineq"
                        then match cs, os with
-                            | [c], [o] => match check_under d asm c o with Some _ => true | None => false end
+                            | [c], [o] => match check_under d asm hs c o with Some _ => true | None => false end
+                            | [c], [] => implied (filter is_eq asm) c       (* the inequality was omitted *)
                             | _, _ => false
                             end
-                       else check_pre d cs os in
+                       else check_pre d hs cs os in
             {| ev_parsed := true; ev_check := chk;
-               ev_points := forallb (point_ok d (cs ++ asm) (os ++ asm)) points; ev_reader := reader_ok;
-               ev_collides := coll; ev_const_only := existsb const_only os |}
-        | None => {| ev_parsed := false; ev_check := false; ev_points := true; ev_reader := reader_ok;
-                     ev_collides := coll; ev_const_only := false |}
+               ev_points := forallb (point_ok d (cs ++ asm) (os ++ asm)) points; ev_reader := reader_ok |}
+        | None => bad_view reader_ok
         end
-    | _, _ => {| ev_parsed := false; ev_check := false; ev_points := true; ev_reader := reader_ok;
-                 ev_collides := false; ev_const_only := false |}
+    | _, _ => bad_view reader_ok
     end.
 
 (* ------------------------------------------------------------------ glue judgement *)
@@ -168,37 +171,36 @@ Definition glue_readback (d : nat) (flag : bool) (m : list (string * string)) (t
   | _ => true
   end.
 
-Definition str_set_eqb (a b : list string) : bool :=
-  forallb (fun x => str_in x b) a && forallb (fun x => str_in x a) b.
+Definition pair_eqb (a b : string * string) : bool := String.eqb (fst a) (fst b) && String.eqb (snd a) (snd b).
+Fixpoint list_eqb {A} (eqb : A -> A -> bool) (a b : list A) : bool :=
+  match a, b with
+  | [], [] => true
+  | x :: xs, y :: ys => eqb x y && list_eqb eqb xs ys
+  | _, _ => false
+  end.
 
-Fixpoint lookup_sym_first (m : list (string * string)) (k : string) : option string :=
-  match m with [] => None | (a, b) :: r => if String.eqb a k then Some b else lookup_sym_first r k end.
-
+(* transform_expression: the dictionary after the call (order included: the functions are visited sorted, the symbol
+   names are made unique) and the text with every function replaced by its symbol *)
 Definition trans_ok (text : string) (given : list (string * string)) (res : string) (after : list (string * string)) : bool :=
   let text' := unesc_s text in
   let given' := unesc_map given in
   let after' := unesc_map after in
-  let found := fluents_in text' in
-  match found with
-  | [] => String.eqb (unesc_s res) text' && str_set_eqb (map fst after') (map fst given')
-  | _ =>
-      let new := filter (fun v => negb (str_in v (map fst given'))) found in
-      let added := skipn (List.length given') after' in
-      str_set_eqb (map fst added) new
-      && forallb (fun kv => String.eqb (snd kv) (symbol_name (fst kv))) added
-      && forallb (fun kv => match lookup_sym_first given' (fst kv) with Some s => String.eqb s (snd kv) | None => false end)
-                 (firstn (List.length given') after')
-      && String.eqb (unesc_s res) (transform_text text' after')
+  match fluents_in text' with
+  | [] => String.eqb (unesc_s res) text' && list_eqb pair_eqb after' given'
+  | found =>
+      match transform_map given' found with
+      | Ok m => list_eqb pair_eqb after' m && String.eqb (unesc_s res) (transform_text text' m)
+      | Err _ => false
+      end
   end.
 
 Definition judge (c : case) : verdict :=
   match c with
-  | CE2E entry d conds assum out reader_ok points =>
-      let v := view_e2e entry d conds assum out reader_ok points in
-      let sem := ev_parsed v && ev_check v && ev_points v in
+  | CE2E entry d conds assum out reader_ok points hints =>
+      let v := view_e2e entry d conds assum out reader_ok points hints in
       {| v_agree := true;
-         v_ok := sem && ev_reader v;
-         v_known := ev_collides v || (sem && ev_const_only v) |}
+         v_ok := ev_parsed v && ev_check v && ev_points v && ev_reader v;
+         v_known := false |}
   | CGlue d flag m t out =>
       {| v_agree := obs_eqb String.eqb (glue_model d flag m t)
                             (match out with Returned s => Returned (unesc_s s) | Raised => Raised end)
@@ -214,13 +216,14 @@ Definition run (cases : list case) : string := summary judge cases.
 Inductive explanation :=
 | XE2E (v : e2e_view) (ins : option (list cond))
 | XGlue (model : obs string) (readback : bool)
-| XTrans (found : list string) (model_text : string).
+| XTrans (found : list string) (model_text : string) (model_map : result (list (string * string))).
 
 Definition explain (c : case) : explanation :=
   match c with
-  | CE2E entry d conds assum out reader_ok points =>
-      XE2E (view_e2e entry d conds assum out reader_ok points) None
+  | CE2E entry d conds assum out reader_ok points hints =>
+      XE2E (view_e2e entry d conds assum out reader_ok points hints) None
   | CGlue d flag m t out => XGlue (glue_model d flag m t) (glue_readback d flag m t)
   | CTrans text given res after =>
       XTrans (fluents_in (unesc_s text)) (transform_text (unesc_s text) (unesc_map after))
+             (transform_map (unesc_map given) (fluents_in (unesc_s text)))
   end.
